@@ -390,3 +390,62 @@ class Person:
 @dataclasses.dataclass
 class Team:  # reaches list[Person] before Person itself does (the annotation is revisited inside the recursive class)
     members: list[Person]
+
+
+import fractions  # noqa: E402
+
+
+@dataclasses.dataclass
+class Ledger:  # members whose zero / empty values still need converting
+    balance: decimal.Decimal
+    share: fractions.Fraction
+    wait: datetime.timedelta
+    tags: tuple[str, ...] = ()
+
+
+@dataclasses.dataclass(slots=True)
+class SBase:
+    ident: str = "base-default"
+    rank: int = 0
+
+
+@dataclasses.dataclass(slots=True)
+class SChild(SBase):  # a slotted dataclass that inherits fields from a slotted base (its own __slots__ holds `label` only)
+    label: str = ""
+
+
+@dataclasses.dataclass
+class Span:
+    lo: int
+    hi: int
+
+
+@dataclasses.dataclass
+class Window:  # a structured member whose leaf types are all seen again right after it
+    span: Span
+    size: int
+
+
+class Record:  # annotated plain classes with inheritance: the subclass adds an annotation of its own
+    id: int
+    created: datetime.date
+
+    def __init__(self, id, created):
+        self.id, self.created = id, created
+
+    def __eq__(self, o):
+        return type(o) is type(self) and vars(o) == vars(self)
+
+    def __repr__(self):
+        return f"{type(self).__name__}({vars(self)!r})"
+
+
+class NamedRecord(Record):
+    name: str
+
+    def __init__(self, id, created, name):
+        super().__init__(id, created)
+        self.name = name
+
+
+DottedRec = t.TypeAliasType("DottedRec", "datetime.date | dict[str, DottedRec]")  # a dotted name inside a recursive string alias
